@@ -434,7 +434,13 @@ TSearch ==
                \* total_hits the same on every page (as built it is not: deviation D16_pagination)
                /\ (~goodTot => IF "D16_pagination" \in Defects THEN Dev("D16_pagination") ELSE Chk("search.pages", FALSE)))
          \* C28: the same query on the same table gives the same hits (as a set) whichever handle answers
-         /\ Chk("search.same", (Has(a, "qid") /\ a.qid \in DOMAIN qhist /\ qhist[a.qid].tab = TabKey(tab)) => qhist[a.qid].res = FS)
+         /\ Chk("search.same", (Has(a, "qid") /\ a.qid \in DOMAIN qhist /\ qhist[a.qid].tab = TabKey(tab)) =>
+                                   /\ qhist[a.qid].res = FS
+                                   \* when neither answer filled its page: the same hits (frame and range), each once
+                                   /\ ((n < a.top_k /\ qhist[a.qid].n < a.top_k) =>
+                                          qhist[a.qid].n = n /\ qhist[a.qid].hs = {<<hits[i].f, hits[i].a, hits[i].b>> : i \in 1..n}))
+         \* a response names a (frame, range) once
+         /\ Chk("search.distinct", \A i, j \in 1..n : (hits[i].f = hits[j].f /\ hits[i].a = hits[j].a /\ hits[i].b = hits[j].b) => i = j)
   /\ Observed(Ev.obs)
 
 TVSearch ==
@@ -557,7 +563,10 @@ QHistNext == IF Ev.ev = "reset" THEN EmptyMap
              ELSE IF Ev.ev \in {"search", "vsearch"} /\ ResOk /\ Has(Ev.args, "qid") /\ Ev.args.qid \notin DOMAIN qhist /\ Committed
                THEN (Ev.args.qid :> [tab |-> TabKey(Tab),
                                       res |-> IF Ev.ev = "search" THEN {Ev.res.val.hits[i].f : i \in 1..Len(Ev.res.val.hits)}
-                                              ELSE [i \in 1..Len(Ev.res.val) |-> Ev.res.val[i].d2]]) @@ qhist
+                                              ELSE [i \in 1..Len(Ev.res.val) |-> Ev.res.val[i].d2],
+                                      \* the hits themselves (frame, range) and how many: compared when the page was not full
+                                      hs |-> IF Ev.ev = "search" THEN {<<Ev.res.val.hits[i].f, Ev.res.val.hits[i].a, Ev.res.val.hits[i].b>> : i \in 1..Len(Ev.res.val.hits)} ELSE {},
+                                      n |-> IF Ev.ev = "search" THEN Len(Ev.res.val.hits) ELSE 0]) @@ qhist
              ELSE qhist
 
 \* C23: the same history executed a second time on a fresh path (`twin` = what the second execution logged for the
